@@ -16,12 +16,17 @@ from ahbicht.validation.validation import validate_deep_anwendungshandbuch
 
 def build_data_element(d: Dict):
     if d["k"] == "F":
-        return DataElementFreeText(discriminator=d["d"], ahb_expression=expr_string(d["x"]), entered_input=d["input"], data_element_id="1234")
+        extra = {}
+        if d.get("vt"):
+            from maus.models.edifact_components import DataElementDataType
+
+            extra["value_type"] = DataElementDataType[d["vt"]]
+        return DataElementFreeText(discriminator=d["d"], ahb_expression=expr_string(d["x"]), entered_input=d["input"], data_element_id="1234", **extra)
     return DataElementValuePool(
         discriminator=d["d"],
         data_element_id="0333",
         entered_input=d["input"],
-        value_pool=[ValuePoolEntry(qualifier=e["q"], meaning="m-" + e["q"], ahb_expression=expr_string(e["x"])) for e in d["entries"]],
+        value_pool=[ValuePoolEntry(qualifier=e["q"], meaning=e.get("m", "m-" + e["q"]), ahb_expression=expr_string(e["x"])) for e in d["entries"]],
     )
 
 
